@@ -68,7 +68,7 @@ def check(ctx, node, replay):
                 n = len(ans["pins"])
                 Th = gen.json_mat_np([z for row in ans["T"] for z in row], n, n) if n else np.zeros((0, 0), complex)
                 Th = Th[np.ix_(order, order)] if n else Th
-                ctx.tag("model:hier")
+                ctx.tag("model:hier", "hyp:WFTree" if ans.get("wftree") else "hyp:outside:WFTree")
                 if Th.size and float(np.max(np.abs(Th - T))) > tol:
                     ctx.disagreement("C02.model.hier", "exact hierarchical model differs from the hierarchical solve of the code", replay)
                 elif mo == "ok" and Th.size and float(np.max(np.abs(Th - Tm))) > 1e-12:
